@@ -37,23 +37,62 @@ def is_const(e, v):
 
 
 def stores_through_index(body):
-    """Writes `*p = v` where p = IndexMut::index_mut(container, idx)."""
+    """Writes to one element of an indexable container:
+    `*p = v` where p = IndexMut::index_mut(container, idx) or p = &mut container[idx]
+    (possibly reborrowed), and `container[idx] = v` on a slice/array place."""
     out = []
     defs = get_defs(body)
+
+    def native(pl):
+        """place ending in an Index projection -> (container operand, idx operand)"""
+        pr = pl["p"]
+        for k in range(len(pr) - 1, -1, -1):
+            if isinstance(pr[k], dict) and "i" in pr[k]:
+                if any(isinstance(x, dict) for x in pr[k + 1:]):
+                    return None
+                cont = {"k": "copy", "pl": {"l": pl["l"], "p": pr[:k], "ty": ""}}
+                idx = {"k": "copy", "pl": {"l": pr[k]["i"], "p": [], "ty": "usize"}}
+                return cont, idx
+        return None
+
+    def pointer(local, depth=0):
+        """local holds a pointer to an element -> (container, idx, index_bb)"""
+        if depth > 4:
+            return None
+        d = defs.unique_full(local)
+        if not d:
+            return None
+        if d[0] == "call":
+            if callee_path(d[3]) == "std::ops::IndexMut::index_mut":
+                return d[3]["args"][0], d[3]["args"][1], d[1]
+            return None
+        if d[0] == "stmt":
+            rv = d[3]["rv"]
+            if rv["k"] in ("ref", "rawptr"):
+                nat = native(rv["pl"])
+                if nat:
+                    return nat[0], nat[1], d[1]
+                if rv["pl"]["p"] == ["*"]:
+                    return pointer(rv["pl"]["l"], depth + 1)
+            if rv["k"] == "use" and rv["op"]["k"] in ("move", "copy") and not rv["op"]["pl"]["p"]:
+                return pointer(rv["op"]["pl"]["l"], depth + 1)
+        return None
+
     for bb, si, s in body.stmts():
         if s["k"] != "assign":
             continue
         pl = s["pl"]
-        if pl["p"] != ["*"]:
+        hit = None
+        if pl["p"] == ["*"]:
+            hit = pointer(pl["l"])
+        elif pl["p"]:
+            nat = native(pl)
+            if nat:
+                hit = (nat[0], nat[1], bb)
+        if hit is None:
             continue
-        d = defs.unique_full(pl["l"])
-        if not d or d[0] != "call":
-            continue
-        t = d[3]
-        if callee_path(t) != "std::ops::IndexMut::index_mut":
-            continue
-        out.append({"bb": bb, "si": si, "container": t["args"][0], "idx": t["args"][1], "ptr": pl["l"],
-                    "value": expr_operand_rv(body, s["rv"], (bb, si)), "stmt": s, "index_bb": d[1]})
+        out.append({"bb": bb, "si": si, "container": hit[0], "idx": hit[1], "ptr": pl["l"],
+                    "value": expr_operand_rv(body, s["rv"], (bb, si)), "stmt": s, "index_bb": hit[2]})
     return out
 
 
@@ -145,6 +184,28 @@ def sources_of_expr(ctx, body, e, mode="prov", rest=()):
     return frozenset([Src(("unknown", "expr " + cur.kind))])
 
 
+def holder_roles(ctx, body, e=None, place=None):
+    """Channel roles of the sender(s) held by a value: the value itself, or --
+    when it is a tuple/struct of senders (`Option<(done_tx, ready_tx)>`) -- its
+    fields.  Returns the set of roles."""
+    m, fl = ctx.model, ctx.model.flow
+
+    def q(rest):
+        if place is not None:
+            return fl.sources_place(body, place, rest)
+        return sources_of_expr(ctx, body, e, rest=rest)
+    roles, _ = m.roles_of_sources(q(()), half=0)
+    roles.discard(None)
+    if roles:
+        return roles
+    out = set()
+    for i in range(4):
+        r, _ = m.roles_of_sources(q((i,)), half=0)
+        r.discard(None)
+        out |= r
+    return out
+
+
 def is_alloc_of(srcs, paths, only=True):
     if not srcs:
         return False
@@ -219,6 +280,16 @@ def counts_allocs(ctx):
             getters = [c for c in walk_expr(e) if c.kind == "call" and c[1].startswith("edge_counts::EdgeCounts::")]
             if getters:
                 out[(setup.id, bb)] = getters[0][1]
+            elif t["dest"]["ty"].startswith("std::vec::Vec<usize") and "[usize]" in (t["args"][0].get("pl", {}).get("ty") or ""):
+                # copy of a slice selected earlier (e.g. by a match on the order): every source of the slice is an EdgeCounts getter's result
+                fl = m.flow
+                srcs = fl.sources_operand(setup, t["args"][0])
+                gsrc = set()
+                for gbb, gt in setup.calls():
+                    if (callee_path(gt) or "").startswith("edge_counts::EdgeCounts::"):
+                        gsrc |= set(fl.sources_local(setup, gt["dest"]["l"], ()))
+                if srcs and gsrc and set(srcs) <= gsrc:
+                    out[(setup.id, bb)] = "selected-getter"
     return out
 
 
@@ -423,27 +494,27 @@ def S1(ctx, rule="S1"):
             else:
                 unknown.append(s)
         param_field[pi] = (fields, unknown)
-    # for each COUNTS copy: the structure paired with it in the same tuple/arm
+    # the (structure, counts) pairs: aggregates of the set-up function that put a Dag reference next to a value
+    # derived from an EdgeCounts getter (the getter's slice itself or a fresh copy of it)
     pair_obs = 0
     order_local = None
-    for (bid, cbb), getter in sorted(ca.items()):
-        # the structure operand paired with this copy: find the aggregate(s)
-        # that take the copy's destination together with a Dag reference.
-        t = setup.blocks[cbb]["term"]
-        dest = t["dest"]["l"]
-        paired = None
-        for bb, si, s in setup.stmts():
-            if s["k"] == "assign" and s["rv"]["k"] == "agg" and s["rv"]["ak"] in ("tuple", "adt"):
-                ops = s["rv"]["ops"]
-                locs = [o.get("pl", {}).get("l") for o in ops]
-                if dest in locs:
-                    for o in ops:
-                        if o.get("pl", {}).get("l") != dest and "daggy::Dag" in (o.get("pl", {}).get("ty") or ""):
-                            paired = (bb, o)
+    pairs = []
+    for bb, si, s in setup.stmts():
+        if s["k"] == "assign" and s["rv"]["k"] == "agg" and s["rv"]["ak"] in ("tuple", "adt"):
+            ops = s["rv"]["ops"]
+            dag_ops = [o for o in ops if "daggy::Dag" in (o.get("pl", {}).get("ty") or "")]
+            for o in ops:
+                if o in dag_ops or o["k"] == "const":
+                    continue
+                gs = [c for c in walk_expr(expr_operand(setup, o)) if c.kind == "call" and c[1].startswith("edge_counts::EdgeCounts::")]
+                if gs and dag_ops:
+                    pairs.append((bb, dag_ops[0], gs[0][1]))
+    if not pairs:
+        ctx.unverifiable(rule, "pair", m.where(setup), "no aggregate pairing a structure with an EdgeCounts getter found in the set-up function")
+    for (pbb_, sop_, getter) in sorted(pairs, key=lambda x: (x[0], x[2])):
+        cbb = pbb_
         where = m.where(setup, cbb)
-        if paired is None:
-            ctx.unverifiable(rule, "pair|%s" % getter, where, "cannot find the structure paired with the counts copy of %s" % getter)
-            continue
+        paired = (pbb_, sop_)
         pbb, sop = paired
         ssrcs = fl.sources_operand(setup, sop)
         sfields = set()
@@ -961,6 +1032,18 @@ def _resolve_iter_local(body, e):
     return strip_refs(e)
 
 
+def _moved_from(body, local, target, depth=0):
+    """local is target, or a chain of whole-value moves/copies of it"""
+    if local == target:
+        return True
+    if depth > 4:
+        return False
+    d = get_defs(body).unique_full(local)
+    if d and d[0] == "stmt" and d[3]["rv"]["k"] == "use" and d[3]["rv"]["op"]["k"] in ("move", "copy") and not d[3]["rv"]["op"]["pl"]["p"]:
+        return _moved_from(body, d[3]["rv"]["op"]["pl"]["l"], target, depth + 1)
+    return False
+
+
 def loop_region(ctx, body, bb):
     """If bb lies in a loop driven by an iterator-like source -- `for x in it`,
     `while let Some(x) = it.next() / walker.walk_next(g) / topo.next(g)`, or
@@ -994,11 +1077,13 @@ def loop_region(ctx, body, bb):
         it = _resolve_iter_local(body, expr_operand(body, t["args"][0]))
         # the arm on which the source is exhausted: switch on discriminant(result) value 0
         none_arm = None
+        sw_bb = None
         for x in sorted(loop):
             tt = body.blocks[x]["term"]
             if tt["k"] == "switch" and tt["discr"]["k"] != "const":
                 d = get_defs(body).unique_full(tt["discr"]["pl"]["l"])
-                if d and d[0] == "stmt" and d[3]["rv"]["k"] == "discr" and d[3]["rv"]["pl"]["l"] == res_local and not d[3]["rv"]["pl"]["p"]:
+                if d and d[0] == "stmt" and d[3]["rv"]["k"] == "discr" and not d[3]["rv"]["pl"]["p"] and \
+                        _moved_from(body, d[3]["rv"]["pl"]["l"], res_local):
                     for v, tb in tt["targets"]:
                         if v == "0":
                             none_arm = tb
@@ -1019,7 +1104,7 @@ def loop_region(ctx, body, bb):
         blocks.discard(none_arm)
         graph_arg = t["args"][1] if kind == "sync" and len(t["args"]) > 1 else None
         best = {"blocks": blocks, "next_bb": cbb, "iter_expr": it, "early_exits": early, "header": hdr, "driver": kind,
-                "none_arm": none_arm, "graph_arg": graph_arg}
+                "none_arm": none_arm, "graph_arg": graph_arg, "switch_bb": sw_bb}
     return best
 
 
@@ -1044,7 +1129,10 @@ def S3(ctx, rule="S3"):
         # (a) each store is `x - 1` of the same element
         for st in sts:
             v = st["value"]
-            okv = v.kind == "binop" and v[1] == "Sub" and is_const(v[3], 1) and v[2].kind == "deref"
+            okv = v.kind == "binop" and v[1] == "Sub" and is_const(v[3], 1)
+            if okv and v[2].kind != "deref":
+                er = elem_read(v[2])
+                okv = er is not None and strip_refs(er[1]) == strip_refs(expr_operand(b, st["idx"]))
             ctx.check(okv, rule, "dec-by-one|%s" % key, m.where(b, st["bb"], st["si"]),
                       "write to COUNTS is `COUNTS[child] -= 1`", "write to COUNTS is `%s`" % fmt_expr(v, b))
         # (b) exactly one store per visited successor
@@ -1604,7 +1692,7 @@ def W3(ctx, rule="W3"):
                 roles, other = m.roles_of_sources(srcs, half=0)
                 loop_ctl = bool(srcs) and all(x.kind == "alloc" and x[4] == CHILDREN for x in srcs)
                 done_item = m.is_done_item(srcs) or all(x.kind == "alloc" and x[4] in CHANNEL_FNS for x in srcs)
-                if roles != {"READY"} and not loop_ctl and not done_item:
+                if roles != {"READY"} and not loop_ctl and not done_item and "READY" not in holder_roles(ctx, b, strip_refs(e[1])):
                     bad.append(fmt_expr(e, b))
             else:
                 bad.append(fmt_expr(e, b))
